@@ -65,7 +65,8 @@ Record Inv (s : st) : Prop := {
   I_set : forall t k, pcs s t = PSetID k -> (k < nslots c)%nat /\ idx s k = [] /\ init k = [];
   I_one : forall t t' k, owned (pcs s t) = Some k -> owned (pcs s t') = Some k -> t = t';
   I_frame : forall k, (exists t, owned (pcs s t) = Some k) \/ idx s k = init k;
-  I_pwd : forall k, (forall t, pcs s t <> PWrite k) -> pwd s k = idx s k
+  I_pwd : forall k, (forall t, pcs s t <> PWrite k) -> pwd s k = idx s k;
+  I_cnt : semv s = match sem s with None => 1%nat | Some _ => 0%nat end     (* the counter: 1 = free, 0 = taken, never more *)
 }.
 
 Lemma init_inv : Inv (init_st init).
@@ -88,9 +89,10 @@ Lemma pc_only_inv s t p sm :
   (forall k, p <> PWrite k) -> (forall k, pcs s t <> PWrite k) ->
   (forall k, p = PSetID k -> (k < nslots c)%nat /\ idx s k = [] /\ init k = []) ->
   (forall t0, sm = Some t0 <-> holder (updf (pcs s) t p t0) = true) ->
-  Inv (mkSt (updf (pcs s) t p) sm (idx s) (pwd s)).
+  forall sv, sv = match sm with None => 1%nat | Some _ => 0%nat end ->
+  Inv (mkSt (updf (pcs s) t p) sm sv (idx s) (pwd s)).
 Proof.
-  intros I Ho Hw Hw' Hs Hsem. constructor; cbn [pcs sem idx pwd].
+  intros I Ho Hw Hw' Hs Hsem sv Hsv. constructor; cbn [pcs sem semv idx pwd].
   - exact Hsem.
   - intros t0 k. upd t0 t; [rewrite Ho|]; apply (I_own s I).
   - intros t0 k. upd t0 t; [apply Hs|apply (I_set s I)].
@@ -99,6 +101,7 @@ Proof.
     exists t0. upd t0 t; [rewrite Ho|]; exact H0.
   - intros k Hk. apply (I_pwd s I). intros t0. destruct (Nat.eq_dec t0 t) as [->|N]; [apply Hw'|].
     specialize (Hk t0). rewrite updf_other in Hk by assumption. exact Hk.
+  - exact Hsv.
 Qed.
 
 Lemma sem_keep s t p : Inv s -> holder p = holder (pcs s t) ->
@@ -111,14 +114,17 @@ Proof.
   2:{ (* interrupted wait *)
     unfold step_intr in Hstep. destruct (pcs s t) eqn:Ept; try discriminate. inversion Hstep; subst; clear Hstep.
     unfold set_pc. apply pc_only_inv; try assumption; try (rewrite Ept; reflexivity); try (intros; congruence).
-    apply sem_keep; [exact I|rewrite Ept; reflexivity]. }
+    - apply sem_keep; [exact I|rewrite Ept; reflexivity].
+    - exact (I_cnt s I). }
   unfold step_thread in Hstep. destruct (pcs s t) eqn:Ept.
   - (* PCheck *)
     destruct (exists_id (nslots c) (idx s) (uid c t)); inversion Hstep; subst; clear Hstep; unfold set_pc;
       (apply pc_only_inv; try assumption; try (rewrite Ept; reflexivity); try (intros; congruence);
-       apply sem_keep; [exact I|rewrite Ept; reflexivity]).
+       [apply sem_keep; [exact I|rewrite Ept; reflexivity]|exact (I_cnt s I)]).
   - (* PLock: take the semaphore if it is free *)
-    destruct (sem s) as [o|] eqn:Eo; [discriminate|]. inversion Hstep; subst; clear Hstep.
+    destruct (semv s) as [|v] eqn:Ev; [discriminate|]. inversion Hstep; subst; clear Hstep.
+    pose proof (I_cnt s I) as Hc. rewrite Ev in Hc.
+    destruct (sem s) as [o|] eqn:Eo; [discriminate|]. assert (v = 0%nat) by lia. subst v.
     assert (Hnoholder : forall t0, holder (pcs s t0) = false).
     { intros t0. destruct (holder (pcs s t0)) eqn:E; [|reflexivity]. apply (I_sem s I) in E. congruence. }
     apply pc_only_inv; try assumption; try (rewrite Ept; destruct (recheck c); reflexivity);
@@ -129,7 +135,7 @@ Proof.
   - (* PRecheck *)
     destruct (exists_id (nslots c) (idx s) (uid c t)); inversion Hstep; subst; clear Hstep; unfold set_pc;
       (apply pc_only_inv; try assumption; try (rewrite Ept; reflexivity); try (intros; congruence);
-       apply sem_keep; [exact I|rewrite Ept; reflexivity]).
+       [apply sem_keep; [exact I|rewrite Ept; reflexivity]|exact (I_cnt s I)]).
   - (* PFind *)
     destruct (find_empty (nslots c) (idx s)) as [k|] eqn:Ef; inversion Hstep; subst; clear Hstep; unfold set_pc.
     + apply pc_only_inv; try assumption; try (rewrite Ept; reflexivity); try (intros; congruence).
@@ -138,14 +144,16 @@ Proof.
         destruct (I_frame s I k) as [[t0 H0]|H0]; [|congruence].
         destruct (I_own s I t0 k H0) as (_ & Hid & _). exfalso. apply (Hids t0). congruence.
       * apply sem_keep; [exact I|rewrite Ept; reflexivity].
+      * exact (I_cnt s I).
     + apply pc_only_inv; try assumption; try (rewrite Ept; reflexivity); try (intros; congruence).
-      apply sem_keep; [exact I|rewrite Ept; reflexivity].
+      * apply sem_keep; [exact I|rewrite Ept; reflexivity].
+      * exact (I_cnt s I).
   - (* PSetID k: the index now says slot k holds this id *)
     inversion Hstep; subst; clear Hstep.
     destruct (I_set s I t k Ept) as (Hlt & Hempty & Hinit).
     assert (Hnoown : forall t0, owned (pcs s t0) <> Some k).
     { intros t0 H0. destruct (I_own s I t0 k H0) as (_ & Hid & _). apply (Hids t0). congruence. }
-    constructor; cbn [pcs sem idx pwd].
+    constructor; cbn [pcs sem semv idx pwd].
     + apply sem_keep; [exact I|rewrite Ept; reflexivity].
     + intros t0 k0. upd t0 t.
       * cbn. intros H; inversion H; subst k0. rewrite updf_same. repeat split; assumption.
@@ -165,11 +173,12 @@ Proof.
       * exfalso. apply (Hk0 t). rewrite updf_same. reflexivity.
       * rewrite updf_other by assumption. apply (I_pwd s I). intros t0. upd t0 t; [congruence|].
         specialize (Hk0 t0). rewrite updf_other in Hk0 by assumption. exact Hk0.
+    + exact (I_cnt s I).
   - (* PWrite k: the record goes to .PASSWDS *)
     inversion Hstep; subst; clear Hstep.
     assert (Hown : owned (pcs s t) = Some k) by (rewrite Ept; reflexivity).
     destruct (I_own s I t k Hown) as (Hlt & Hid & Hinit).
-    constructor; cbn [pcs sem idx pwd].
+    constructor; cbn [pcs sem semv idx pwd].
     + apply sem_keep; [exact I|rewrite Ept; reflexivity].
     + intros t0 k0. upd t0 t; [cbn; rewrite <- Hown|]; apply (I_own s I).
     + intros t0 k0. upd t0 t; [discriminate|apply (I_set s I)].
@@ -180,13 +189,20 @@ Proof.
       * rewrite updf_same. symmetry. exact Hid.
       * rewrite updf_other by assumption. apply (I_pwd s I). intros t0. upd t0 t; [congruence|].
         specialize (Hk0 t0). rewrite updf_other in Hk0 by assumption. exact Hk0.
+    + exact (I_cnt s I).
   - (* PUnlock k *)
     inversion Hstep; subst; clear Hstep.
+    assert (Hheld : semv s = 0%nat).
+    { pose proof (I_cnt s I) as Hc. assert (Es : sem s = Some t) by (apply (I_sem s I); rewrite Ept; reflexivity).
+      rewrite Es in Hc. exact Hc. }
     apply pc_only_inv; try assumption; try (rewrite Ept; reflexivity); try (intros; congruence).
     intros t0. upd t0 t; [cbn; split; discriminate|].
     split; [discriminate|]. intros Hh. exfalso. apply n. apply (holder_unique s t0 t I Hh). rewrite Ept. reflexivity.
   - (* PUnlockErr *)
     inversion Hstep; subst; clear Hstep.
+    assert (Hheld : semv s = 0%nat).
+    { pose proof (I_cnt s I) as Hc. assert (Es : sem s = Some t) by (apply (I_sem s I); rewrite Ept; reflexivity).
+      rewrite Es in Hc. exact Hc. }
     apply pc_only_inv; try assumption; try (rewrite Ept; reflexivity); try (intros; congruence).
     intros t0. upd t0 t; [cbn; split; discriminate|].
     split; [discriminate|]. intros Hh. exfalso. apply n. apply (holder_unique s t0 t I Hh). rewrite Ept. reflexivity.
@@ -257,6 +273,62 @@ Proof.
         destruct (I_own _ I t k) as (_ & H2 & H3); [rewrite E; reflexivity|]. apply (Hids t). congruence.
 Qed.
 
+(* the passwd semaphore as a counter: whatever the schedule — including every refusal inside the critical section
+   (id found by the lookup under the lock, no free slot), every interrupted wait and any number of later calls —
+   its value never exceeds 1, it is 0 exactly while some call is between its PasswdLock and its PasswdUnlock,
+   and it is 1 again whenever no call is inside (in particular when all calls have returned) *)
+Theorem sem_counter sch : let s := run c sch (init_st init) in
+  (semv s <= 1)%nat /\
+  (forall t, holder (pcs s t) = true -> semv s = 0%nat) /\
+  ((forall t, holder (pcs s t) = false) -> semv s = 1%nat) /\
+  (quiescent s -> semv s = 1%nat).
+Proof.
+  cbv zeta. pose proof (reachable_inv sch) as I. set (s := run c sch (init_st init)) in *.
+  pose proof (I_cnt _ I) as Hc.
+  assert (Hfree : (forall t, holder (pcs s t) = false) -> semv s = 1%nat).
+  { intros Hn. destruct (sem s) as [o|] eqn:E; [|exact Hc]. apply (I_sem _ I) in E. rewrite Hn in E. discriminate. }
+  split; [destruct (sem s); lia|]. split; [|split].
+  - intros t Ht. apply (I_sem _ I) in Ht. rewrite Ht in Hc. exact Hc.
+  - exact Hfree.
+  - intros Q. apply Hfree. intros t. destruct (Q t) as [H|H]; [rewrite H; reflexivity|].
+    destruct (pcs s t); try discriminate; reflexivity.
+Qed.
+
+(* what the harness runs: the observed trace with observation marks. The final state is the [run] of the trace
+   without the marks, and every value recorded at a mark is the counter of a state reachable by a prefix: 0 or 1 *)
+Definition unmark (zs : list Z) : list act := map act_of_Z (filter (fun z => negb (z =? OBS)) zs).
+
+Lemma replay_obs_run zs : forall s s' o, replay_obs c zs s = Some (s', o) -> run c (unmark zs) s = s'.
+Proof.
+  induction zs as [|z zs IH]; intros s s' o H; cbn [replay_obs] in H.
+  - inversion H. reflexivity.
+  - unfold unmark. cbn [filter]. destruct (z =? OBS) eqn:Ez; cbn [negb].
+    + destruct (replay_obs c zs s) as [[s1 o1]|] eqn:E; [|discriminate]. inversion H; subst. exact (IH _ _ _ E).
+    + cbn [map run fold_left]. unfold step_skip at 2. destruct (step c s (act_of_Z z)) as [s1|] eqn:E; [|discriminate].
+      exact (IH _ _ _ H).
+Qed.
+
+Lemma replay_obs_values zs : forall s s' o, Inv s -> replay_obs c zs s = Some (s', o) ->
+  Forall (fun v => v = 0 \/ v = 1) o.
+Proof.
+  induction zs as [|z zs IH]; intros s s' o I H; cbn [replay_obs] in H.
+  - inversion H. constructor.
+  - destruct (z =? OBS).
+    + destruct (replay_obs c zs s) as [[s1 o1]|] eqn:E; [|discriminate]. inversion H; subst. constructor.
+      * pose proof (I_cnt s I) as Hc. destruct (sem s); rewrite Hc; [left|right]; reflexivity.
+      * exact (IH _ _ _ I E).
+    + destruct (step c s (act_of_Z z)) as [s1|] eqn:E; [|discriminate].
+      exact (IH _ _ _ (step_inv _ _ _ I E) H).
+Qed.
+
+Theorem observed_counter zs s' o : replay_obs c zs (init_st init) = Some (s', o) ->
+  s' = run c (unmark zs) (init_st init) /\ Forall (fun v => v = 0 \/ v = 1) o /\ (semv s' <= 1)%nat.
+Proof.
+  intros H. pose proof (replay_obs_run _ _ _ _ H) as Hr. split; [symmetry; exact Hr|]. split.
+  - exact (replay_obs_values _ _ _ _ init_inv H).
+  - subst s'. apply (sem_counter (unmark zs)).
+Qed.
+
 (* no deadlock: while some call has not returned, some thread can move *)
 Theorem progress sch t : let s := run c sch (init_st init) in
   finished (pcs s t) = false -> exists t', step c s (Step t') <> None.
@@ -265,7 +337,9 @@ Proof.
   destruct (step c s (Step t)) eqn:E; [exists t; congruence|].
   cbn [step] in E. unfold step_thread in E. destruct (pcs s t) eqn:Ept; try discriminate.
   - destruct (exists_id _ _ _); discriminate.
-  - destruct (sem s) as [o|] eqn:Eo; [|discriminate].
+  - destruct (semv s) as [|v] eqn:Ev; [|discriminate].
+    pose proof (I_cnt _ I) as Hc. fold s in Hc. rewrite Ev in Hc.
+    destruct (sem s) as [o|] eqn:Eo; [|discriminate].
     exists o. apply (I_sem _ I) in Eo. cbn [step]. unfold step_thread.
     destruct (pcs s o); try discriminate;
       try (destruct (exists_id _ _ _); discriminate); try (destruct (find_empty _ _); discriminate).
@@ -299,7 +373,7 @@ Proof.
     2:{ unfold step_intr in Hstep. destruct (pcs s t); try discriminate. inversion Hstep; subst. exact UT. }
     unfold step_thread in Hstep. destruct (pcs s t) eqn:Ept.
     + destruct (exists_id _ _ _); inversion Hstep; subst; exact UT.
-    + destruct (sem s); [discriminate|]. inversion Hstep; subst; exact UT.
+    + destruct (semv s); [discriminate|]. inversion Hstep; subst; exact UT.
     + destruct (exists_id _ _ _); inversion Hstep; subst; exact UT.
     + destruct (find_empty _ _); inversion Hstep; subst; exact UT.
     + (* PSetID k *)
@@ -323,7 +397,7 @@ Proof.
     unfold step_thread in Hstep. destruct (pcs s t) eqn:Ept.
     + destruct (exists_id _ _ _); inversion Hstep; subst; cbn [pcs idx set_pc]; intros t0;
         (destruct (Nat.eq_dec t0 t) as [->|N]; [rewrite updf_same; discriminate|rewrite updf_other by assumption; apply UP]).
-    + destruct (sem s); [discriminate|]. inversion Hstep; subst; cbn [pcs idx]. rewrite Hrecheck. intros t0.
+    + destruct (semv s); [discriminate|]. inversion Hstep; subst; cbn [pcs idx]. rewrite Hrecheck. intros t0.
       destruct (Nat.eq_dec t0 t) as [->|N]; [rewrite updf_same; discriminate|rewrite updf_other by assumption; apply UP].
     + destruct (exists_id (nslots c) (idx s) (uid c t)) eqn:Ex; inversion Hstep; subst; cbn [pcs idx set_pc]; intros t0;
         (destruct (Nat.eq_dec t0 t) as [->|N]; [rewrite updf_same|rewrite updf_other by assumption; apply UP]);
@@ -449,6 +523,37 @@ Example ex_fixed_same : let s := run (cfg_same true) witness_r (init_st tab4) in
 Proof. vm_compute. reflexivity. Qed.
 Example ex_fixed_twin : let s := run (cfg_twin true) witness_r (init_st tab4) in
   (pcs s 0%nat, pcs s 1%nat, idx s 1%nat, idx s 2%nat) = (PDoneOk 1, PDoneErr E_EXISTS, id_ab, []).
+Proof. vm_compute. reflexivity. Qed.
+(* the counter along a two-phase history: first a same-id race whose loser is refused INSIDE the lock (steps of
+   thread 1 after thread 0 has finished), then two registrations of different ids interleaved on the same semaphore
+   and table; the marks read 1 (fresh), 0 (thread 0 inside), 0 (thread 1 inside, about to be refused), 1 (after the
+   refusal: the single deferred unlock), 0 (thread 2 inside, thread 3 waiting), 0 (thread 3 inside), 1 (quiescent) *)
+Definition cfg_two_phase : cfg :=
+  mkCfg 4 true (fun t => match t with O | S O => id_ab | S (S O) => [99] | _ => [100] end).
+Example ex_two_phase_counter :
+  match replay_obs cfg_two_phase
+    [OBS; 0; 1; 0; OBS; 0; 0; 0; 0; 0; 1; OBS; 1; 1; OBS;
+     2; 3; 2; OBS; 2; 2; 2; 2; 2; 3; OBS; 3; 3; 3; 3; 3; OBS] (init_st tab4) with
+  | Some (s, o) => (o, semv s, pcs s 0%nat, pcs s 1%nat, pcs s 2%nat, pcs s 3%nat)
+                   = ([1; 0; 0; 1; 0; 0; 1], 1%nat, PDoneOk 1, PDoneErr E_EXISTS, PDoneOk 2, PDoneOk 3)
+  | None => False
+  end.
+Proof. vm_compute. reflexivity. Qed.
+(* refusal inside the lock because no slot is free: the counter is back at 1 as well *)
+Example ex_noslot_counter : let c := mkCfg 1 true (fun t => [97; 48 + Z.of_nat t]) in
+  match replay_obs c [0; 0; 0; OBS; 0; 0; OBS] (init_st tab4) with
+  | Some (s, o) => (o, semv s, pcs s 0%nat) = ([0; 1], 1%nat, PDoneErr E_NOSLOT)
+  | None => False
+  end.
+Proof. vm_compute. reflexivity. Qed.
+(* why the bound matters: nothing in the step relation caps the counter, and from a (not reachable) state in which it
+   is 2 — a semaphore that was posted once too often — two registrations of different ids are inside the critical
+   section together and are given the SAME slot; the index keeps one of the two ids *)
+Example ex_counter_2_shares_slot :
+  let c := mkCfg 4 true (fun t => match t with O => [99] | _ => [100] end) in
+  let s := run c [Step 0; Step 1; Step 0; Step 1; Step 0; Step 1; Step 0; Step 1; Step 0; Step 1; Step 0; Step 1; Step 0; Step 1]%nat
+               (mkSt (fun _ => PCheck) None 2%nat tab4 tab4) in
+  (pcs s 0%nat, pcs s 1%nat, idx s 1%nat, semv s) = (PDoneOk 1, PDoneOk 1, [100], 2%nat).
 Proof. vm_compute. reflexivity. Qed.
 (* three threads, different ids, one interrupted wait *)
 Example ex_three : let c := mkCfg 3 true (fun t => [97; 98; 48 + Z.of_nat t]) in
